@@ -11,6 +11,7 @@ from sa.loader import (
     AnalysisError, FuncDef, Module, Repo, ancestors, call_name, last_attr, parent, qualname_of, unparse, walk_body,
 )  # fmt: skip
 from sa.report import Check, node_text
+from sa.resolve import ClassIndex
 from sa.tables import Evaluator, NotStatic, module_const, resolve_name
 
 INT32 = (-(2**31), 2**31 - 1)
@@ -751,3 +752,72 @@ def undefined_never_completes(check: Check, repo: Repo, rule: str = "UNDEFINED-R
                      "the function can complete normally although the argument could not be coerced")
     if n == 0:
         raise AnalysisError("coerce_argument: Undefined branch not found in the CFG")
+
+
+# -- round 4 ------------------------------------------------------------------------------------------------
+
+
+def enum_input_classes(check: Check, repo: Repo, rule: str = "ENUM-INPUT-CLASSES") -> None:
+    from sa.loader import class_tests
+
+    check.rule(
+        rule,
+        "GraphQLEnumType: the two directions between external values and literals dispatch on the same Python classes - "
+        "coerce_input_value (value -> internal value) and value_to_literal (value -> EnumValueNode) test their argument "
+        "against the same class set ({str}: an enum input is the *name*). A class accepted by one side only (a Python Enum "
+        "member mapped to its name in coerce_input_value) gives a value that validates and coerces but cannot be written "
+        "as a literal: a default of that kind passes schema validation and print_schema raises",
+    )
+    ci = ClassIndex(repo).get("type.definition", "GraphQLEnumType")
+    sides = {}
+    for m in ("coerce_input_value", "value_to_literal"):
+        fn = ci.methods().get(m)
+        if fn is None:
+            raise AnalysisError(f"GraphQLEnumType.{m} not found")
+        subject = fn.args.args[1].arg
+        sides[m] = (fn, class_tests(fn, subject))
+    a, b = sides["coerce_input_value"], sides["value_to_literal"]
+    for m, (fn, cls) in sides.items():
+        other = b[1] if m == "coerce_input_value" else a[1]
+        check.ob(rule, fn, f"GraphQLEnumType.{m}: classes of external values {sorted(cls)}", cls == other and bool(cls),
+                 "same class set as the sibling" if cls == other and cls else f"the sibling dispatches on {sorted(other)}")
+
+
+def literal_rule_delegates(check: Check, repo: Repo, rule: str = "LITERAL-RULE-DELEGATES") -> None:
+    check.rule(
+        rule,
+        "ValuesOfCorrectTypeRule gives no verdict of its own: in is_valid_value_node, once an input type is known, every "
+        "normal path to the return passes the call of validate_input_literal - the same routine whose clauses are kept in "
+        "agreement with coerce_input_literal (SIBLING-ATOMS). A shortcut that accepts 'obviously fine' literals (a Float "
+        "literal for Float) skips the checks that depend on the value (1e999 is not finite) and validation passes a "
+        "document whose execution fails",
+    )
+    fn = repo.func("validation.rules.values_of_correct_type", "ValuesOfCorrectTypeRule.is_valid_value_node")
+    calls = [c for c in walk_body(fn) if isinstance(c, ast.Call) and call_name(c) == "validate_input_literal"]
+    if not calls:
+        check.ob(rule, fn, "is_valid_value_node delegates to validate_input_literal", False, "validate_input_literal is never called")
+        return
+    pname = fn.args.args[2].arg
+    cfg = CFG(fn)
+    call_nodes = {n for c in calls for n in cfg.node_for_expr(c)}
+
+    def follow(a, b, label) -> bool:
+        if not no_exc(a, b, label):
+            return False
+        if label and label[0] == "cond":
+            t, pol = unparse(label[1]), label[2]
+            if (t == pname and not pol) or (t == f"{pname} is None" and pol) or (t == f"{pname} is not None" and not pol):
+                return False  # the arm without an input type: nothing to validate against
+        return True
+
+    path = cfg.find_path(cfg.entry, lambda nd: nd is cfg.exit, follow=follow, avoid=lambda nd: nd in call_nodes)
+    check.ob(rule, calls[0], "is_valid_value_node: every literal with a known input type goes through validate_input_literal", path is None,
+             "the call is on every normal path of the typed arm" if path is None else "a verdict is returned without it: " + cfg.describe_path(path)[-200:])
+    # all literal kinds enter through this method
+    ci = ClassIndex(repo).get("validation.rules.values_of_correct_type", "ValuesOfCorrectTypeRule")
+    leaf_handlers = [m for n, m in ci.methods().items() if n in ("enter_enum_value", "enter_int_value", "enter_float_value", "enter_string_value", "enter_boolean_value")]
+    for m in leaf_handlers:
+        ok = any(isinstance(c, ast.Call) and call_name(c).split(".")[-1] == "is_valid_value_node" for c in walk_body(m))
+        check.ob(rule, m, f"{m.name} delegates to is_valid_value_node", ok, "calls is_valid_value_node" if ok else "decides without is_valid_value_node")
+    if len(leaf_handlers) < 5:
+        raise AnalysisError("ValuesOfCorrectTypeRule: leaf literal handlers not found")
